@@ -16,7 +16,9 @@ macro_rules! opaque {
         impl Clone for $n { #[verifier::external_body] fn clone(&self) -> (r: Self) ensures r == *self { unimplemented!() } }
     )* } }
 }
-opaque!(Transfer, Payload, Disposition, SessionOutgoingItem, FlowRest, ConnErr, OtherErr);
+opaque!(Transfer, Payload, Disposition, FlowRest, ConnErr, OtherErr);
+/// session::frame::SessionOutgoingItem
+pub enum SessionOutgoingItem { SingleFrame(SessionFrame), MultipleFrames(Vec<SessionFrame>) }
 #[derive(Clone, Copy)]
 pub struct InputHandle(pub u32);
 pub struct Handle(pub u32);
@@ -53,7 +55,15 @@ impl ReceiverFlowS {
 }
 pub enum LinkRelay { Sender { flow_state: SenderFlowS, output_handle: OutputHandle }, Receiver { flow_state: ReceiverFlowS, output_handle: OutputHandle } }
 pub open spec fn applied_of(r: LinkRelay) -> Seq<LinkFlow> { match r { LinkRelay::Sender { flow_state, .. } => flow_state.applied@, LinkRelay::Receiver { flow_state, .. } => flow_state.applied@ } }
-pub struct SessionS { pub g: Ghost<int>, pub link_by_input_handle: LinkTable }
+/// `releasable` (ghost): the session holds back transfers (peer's incoming window was exhausted) although the window it last computed is open
+pub struct SessionS { pub g: Ghost<int>, pub link_by_input_handle: LinkTable, pub releasable: Ghost<bool>, pub remote_incoming_window: u32, pub remote_incoming_window_exhausted_buffer: ParkedS }
+/// the session's queue of held-back transfers, reduced to whether it is empty
+pub struct ParkedS { pub n: Ghost<nat> }
+impl ParkedS {
+    #[verifier::external_body]
+    pub fn is_empty(&self) -> (r: bool) ensures r == (self.n@ == 0) { unimplemented!() }
+}
+opaque!(SessionFrame);
 #[verifier::external_body]
 pub struct LinkTable { m: Vec<u8> }
 impl View for LinkTable { type V = Map<u32, LinkRelay>; uninterp spec fn view(&self) -> Map<u32, LinkRelay>; }
@@ -67,7 +77,20 @@ impl LinkTable {
 }
 impl SessionS {
     #[verifier::external_body]
-    pub fn on_incoming_flow(&mut self, flow: Flow) -> (r: Result<Option<SessionOutgoingItem>, SessionInnerError>) { unimplemented!() }
+    /// Session::on_incoming_flow (unit SESSION): on Ok the window has been recomputed from the flow AND the transfers it releases are in the returned frames
+    /// ([C07.drain.complete]: nothing stays held back while the window is open); on Err(UnattachedHandle) the window HAS been recomputed (on_incoming_flow_inner runs
+    /// first) but the drain that follows was skipped by the `?`
+    #[verifier::external_body]
+    pub fn on_incoming_flow(&mut self, flow: Flow) -> (r: Result<Option<SessionOutgoingItem>, SessionInnerError>)
+        ensures r is Ok ==> !final(self).releasable@,
+            final(self).releasable@ == (final(self).remote_incoming_window > 0 && final(self).remote_incoming_window_exhausted_buffer.n@ > 0),
+    { unimplemented!() }
+    /// Session::prepare_session_frames_from_buffered_transfers (unit SESSION, [C07.drain.complete]): afterwards nothing is held back while the window is open
+    #[verifier::external_body]
+    pub fn prepare_session_frames_from_buffered_transfers(&mut self, output_frame_buffer: Vec<SessionFrame>) -> (r: Result<Vec<SessionFrame>, SessionInnerError>)
+        ensures !final(self).releasable@, final(self).link_by_input_handle == old(self).link_by_input_handle,
+            r is Ok,       // [C07.drain.total] of unit SESSION
+    { unimplemented!() }
     #[verifier::external_body]
     pub fn on_incoming_transfer(&mut self, transfer: Transfer, payload: Payload) -> (r: Result<Option<Disposition>, SessionInnerError>) { unimplemented!() }
     /// Session::on_incoming_detach (unit SESSION, [C15.detach.unattached] / [C13.link.peer-detach-not-fatal])
@@ -113,9 +136,9 @@ impl ListenerSession {
             let h = flow.handle->Some_0.0;
             let before = if old(self).pending_link_flows@.contains_key(h) { old(self).pending_link_flows@[h] } else { Seq::<LinkFlow>::empty() };
             &&& final(self).pending_link_flows@ == old(self).pending_link_flows@.insert(h, before.push(LinkFlow { handle: flow.handle->Some_0, rest: flow.rest }))   // [C15.listener.flow-unattached-buffered] exactly this flow is appended under exactly its own handle (arrival order kept), nothing else is touched [C11.listener.flow-kept-for-its-handle]
-            &&& r->Ok_0 is None
         }),
         r is Err ==> final(self).pending_link_flows@ == old(self).pending_link_flows@ && !(r->Err_0 is UnattachedHandle),   // [C15.listener.unattached-not-fatal] a flow for an unattached handle never ends the listener session; every other error of the session is passed on unchanged
+        r is Ok ==> !final(self).session.releasable@,           // [C07.listener.flow-reopening-window-drains] a flow that re-opens the peer's incoming window releases the transfers the session had parked -- also when its LINK part names a handle that is not accepted yet: swallowing that error must not swallow the drain (the parked transfers would wait for some unrelated later frame, possibly for ever)
 //@@ end
 
 //@@ fn file=fe2o3-amqp/src/acceptor/session.rs impl=`impl endpoint::Session for ListenerSession` name=on_incoming_transfer
